@@ -3,8 +3,11 @@
   rtosc_arg_val_from_int, rtosc_arg_val_mult, rtosc_arg_val_add and
   rtosc_arg_val_range_arg  (`result = start + ith * delta`).
 
-  * `int32_t` / `int64_t` arithmetic is exact on `Int`; a result outside the type's range is
-    signed overflow, i.e. undefined behaviour in C (`Err.overflow`), never wrapped silently.
+  * `int32_t` / `int64_t` arithmetic wraps around in two's complement, as the code does with
+    fixes/C10-10-argval-math-wrap.patch applied (`(int32_t)((uint32_t)a + (uint32_t)b)` …).
+    On the code without that patch the same operands are signed overflow, i.e. undefined
+    behaviour in C; the correspondence generator only produces such operands when the working
+    tree contains the patch.
   * `float` / `double` arithmetic is exact IEEE arithmetic on bit patterns (`Float.lean`).
   * A function returning `false` (unsupported type combination) is `none` in `Option`; the
     caller `rtosc_arg_val_range_arg` then returns NULL and leaves `*result` indeterminate.
@@ -13,11 +16,10 @@ import RtoscModel.ArgVal.Val
 namespace Rtosc.ArgVal
 open Rtosc
 
-def inI32 (v : Int) : Bool := -2147483648 ≤ v && v ≤ 2147483647
-def inI64 (v : Int) : Bool := -9223372036854775808 ≤ v && v ≤ 9223372036854775807
-
-def chkI32 (v : Int) : Res Int := if inI32 v then .ok v else .error .overflow
-def chkI64 (v : Int) : Res Int := if inI64 v then .ok v else .error .overflow
+/-- `(int32_t)(uint32_t)v` : reduce into [-2^31, 2^31) -/
+def wrapI32 (v : Int) : Int := (v + 2147483648) % 4294967296 - 2147483648
+/-- `(int64_t)(uint64_t)v` : reduce into [-2^63, 2^63) -/
+def wrapI64 (v : Int) : Int := (v + 9223372036854775808) % 18446744073709551616 - 9223372036854775808
 
 def fop32 (r : Option Nat) : Res Cell :=
   match r with | some b => .ok (.flt (UInt32.ofNat b)) | none => .error .nan
@@ -48,9 +50,9 @@ def mult (lhs rhs : Cell) : Option (Res Cell) :=
     match lhs, rhs with
     | .dbl a, .dbl b => some (fop64 (f64.mul a.toNat b.toNat))
     | .flt a, .flt b => some (fop32 (f32.mul a.toNat b.toNat))
-    | .huge a, .huge b => some ((chkI64 (a * b)).map .huge)
-    | .int .c a, .int .c b => some ((chkI32 (a * b)).map (.int .c))
-    | .int .i a, .int .i b => some ((chkI32 (a * b)).map (.int .i))
+    | .huge a, .huge b => some (.ok (.huge (wrapI64 (a * b))))
+    | .int .c a, .int .c b => some (.ok (.int .c (wrapI32 (a * b))))
+    | .int .i a, .int .i b => some (.ok (.int .i (wrapI32 (a * b))))
     | .flag .T, .flag .T => some (.ok (.flag .T))
     | .flag .F, .flag .F => some (.ok (.flag .F))
     | _, _ => none
@@ -66,9 +68,9 @@ def add (lhs rhs : Cell) : Option (Res Cell) :=
     match lhs, rhs with
     | .dbl a, .dbl b => some (fop64 (f64.add a.toNat b.toNat))
     | .flt a, .flt b => some (fop32 (f32.add a.toNat b.toNat))
-    | .huge a, .huge b => some ((chkI64 (a + b)).map .huge)
-    | .int .c a, .int .c b => some ((chkI32 (a + b)).map (.int .c))
-    | .int .i a, .int .i b => some ((chkI32 (a + b)).map (.int .i))
+    | .huge a, .huge b => some (.ok (.huge (wrapI64 (a + b))))
+    | .int .c a, .int .c b => some (.ok (.int .c (wrapI32 (a + b))))
+    | .int .i a, .int .i b => some (.ok (.int .i (wrapI32 (a + b))))
     | .flag .T, .flag .T => some (.ok (.flag .F))
     | .flag .F, .flag .F => some (.ok (.flag .F))
     | _, _ => none
